@@ -408,6 +408,11 @@ class SpecEval:
             ps = self.vc.sort_of(pts)
             if v.sort == 'Nil':
                 v = self.nil_of(V('', ps, pts))
+            if v.sort != ps and ps == 'Any' and v.ts is not None and v.sort != 'Seq:Any':
+                # a concrete value where an interface is expected (an implementation checked against its
+                # interface contract names itself `self`): the interface value holding it
+                from .exec import box
+                v = box(self.vc, v)
             if v.sort != ps:
                 self.err('argument %s of %s: sort %s, expected %s' % (pn, name, v.sort, ps))
             argvs.append(V(v.term, ps, pts))
@@ -628,6 +633,18 @@ class SpecEval:
         from .models import f2i_term
         x = self.eval(args[0])
         return V(f2i_term(self.vc, x.term, x.sort, 'int'), 'Int', 'int')
+
+    def b_ffloor(self, args):
+        x = self.eval(args[0])
+        return V('(fp.roundToIntegral RTN %s)' % x.term, x.sort, x.ts)
+
+    def b_fceil(self, args):
+        x = self.eval(args[0])
+        return V('(fp.roundToIntegral RTP %s)' % x.term, x.sort, x.ts)
+
+    def b_fround(self, args):
+        x = self.eval(args[0])
+        return V('(fp.roundToIntegral RNA %s)' % x.term, x.sort, x.ts)
 
     def b_fabs(self, args):
         x = self.eval(args[0])
